@@ -281,7 +281,44 @@ theorem joinReshaped_inBounds (a b a' b' : Shape) (axis : Int) (ha : Pos a) (hb 
     (v : IxView2) (hv : joinReshaped a b a' b' axis = some v) : v.InBounds :=
   C04.joinReshaped_inBounds a b a' b' axis ha hb v hv
 
-/-- diagonal: only the 2-d case (every offset) is proved by C04 (listed as partial there too) -/
+/-- diagonal of any rank, any accepted axis pair (negative axes included), every offset -/
+theorem diagonal_inBounds (s : Shape) (off axis1 axis2 : Int) (a1 a2 : Nat)
+    (h1 : normalizeAxis1 axis1 s.length = some a1) (h2 : normalizeAxis1 axis2 s.length = some a2) (hne : a1 ≠ a2)
+    (v : IxView) (hv : diagonalView s off axis1 axis2 = some v) : v.InBounds :=
+  C04.diagonal_inBounds s off axis1 axis2 a1 a2 h1 h2 hne v hv
+
+/-- expand over any accepted axis list (repeats included), one spacing per entry -/
+theorem expandAxes_inBounds (s : Shape) (axes : List Int) (sps ks : List Nat) (hk : AxesNorm s.length axes ks)
+    (hl : sps.length = axes.length) (v : IxView) (hv : expandView s axes sps = some v) : v.InBounds :=
+  C04.expandAxes_inBounds s axes sps ks hk hl v hv
+
+/-- sliding_window with a window list over an axis list (negative and repeated axes) on the no-wrap domain -/
+theorem slidingWindowList_inBounds (s ws : List Nat) (axes : List Int) (ks : List Nat) (hk : AxesNorm s.length axes ks)
+    (hw : ∀ w ∈ ws, 1 ≤ w) (hfit : ∀ p e, s[p]? = some e → winSum ks (ws.map (· - 1)) p ≤ e)
+    (v : IxView) (hv : slidingWindowView s ws (some axes) false = some v) : v.InBounds :=
+  C04.slidingWindowList_inBounds s ws axes ks hk hw hfit v hv
+
+/-- sliding_window with a window list and axis None -/
+theorem slidingWindowNone_inBounds (s ws : List Nat) (hl : ws.length = s.length) (hw : ∀ w ∈ ws, 1 ≤ w)
+    (hfit : ∀ (p e w : Nat), s[p]? = some e → ws[p]? = some w → w ≤ e + 1) (v : IxView)
+    (hv : slidingWindowView s ws none false = some v) : v.InBounds :=
+  C04.slidingWindowNone_inBounds s ws hl hw hfit v hv
+
+/-- split at a list of non-negative cut points (beyond the extent: clamped), any accepted axis: every part -/
+theorem splitIdx_inBounds (s : Shape) (cuts : List Int) (axis : Int) (k : Nat)
+    (hk : normalizeAxis1 axis s.length = some k) (hnn : ∀ c ∈ cuts, 0 ≤ c)
+    (ps : List IxView) (hps : splitViews s none cuts axis = some ps) (i : Nat) (v : IxView) (hv : ps[i]? = some v) :
+    v.InBounds :=
+  C04.splitIdx_inBounds s cuts axis k hk hnn ps hps i v hv
+
+/-- where(cond, x, y): the condition and the selected operand are read inside their shapes -/
+theorem where_inBounds (c x y : Shape) (w : WhereView) (h : whereView c x y = some w) (cond : Idx → Int) (d : Idx)
+    (hd : InShape d w.dst) :
+    InShape (specBroadcastIdx c d) c ∧
+      ∀ fl i, w.select cond d = some (fl, i) → InShape i (if fl then y else x) :=
+  C04.where_inBounds c x y w h cond d hd
+
+/-- diagonal, 2-d instance (kept under its old name; subsumed by `diagonal_inBounds`) -/
 theorem diagonal2d_inBounds_partial (n1 n2 : Nat) (off : Int) (v : IxView)
     (hv : diagonalView [n1, n2] off 0 1 = some v) : v.InBounds :=
   C04.diagonal2d_inBounds_partial n1 n2 off v hv
